@@ -214,3 +214,29 @@ def match_replay(v, acc, names, maxk, maxt, sig="stage-replay", timeout=2400):
         for r in recs:
             if r.get("kind") == "mismatch":
                 v.fail(sig, {"thr": r["thr"], "why": r["why"], "spec": r["spec"]})
+
+
+def score_legs(v, acc, maxops, timeout=1800):
+    """Legs M and G on the scoring half of S2 (V2Score): diffRange / scoreDiffs / diffLevenshteinWord / textLength."""
+    cfg = "V2ScoreMC.cfg"
+    r = tlc_require_ok(tlc("V2ScoreMC", cfg, timeout=timeout, files={cfg: cfg_text(cfg, MaxOps=maxops)}), "V2Score model check")
+    acc.add_tlc(r, cfg, MaxOps=maxops)
+    cfg = "V2ScoreGen.cfg"
+    gen = tlc("V2ScoreMC", cfg, timeout=timeout, workers=4, files={cfg: cfg_text(cfg, MaxOps=maxops)})
+    tlc_require_ok(gen, "V2Score vector generation"); acc.add_tlc(gen, cfg, MaxOps=maxops)
+    out = os.path.join(sub("out"), "score.ndjson")
+    if os.path.exists(out):
+        os.remove(out)
+    rc, txt, _ = go_overlay_test("v2", ["common/util_test.go", "v2/score_driver_test.go"], "^TestVerifScoreReplay$", timeout=timeout,
+                                 env={"VERIF_IN": gen.outpath, "VERIF_OUT": out})
+    recs = read_ndjson(out)
+    summ = [r for r in recs if r.get("kind") == "summary"]
+    if vlib.build_failed(txt) or not summ or summ[0]["vectors"] == 0:
+        raise vlib.Inconclusive("score replay driver failed:\n" + txt[-2500:])
+    s = summ[0]
+    acc.evaluations += s["vectors"]; acc.nontrivial += s["nontrivial"]
+    acc.extra["score_replay"] = {"scripts": s["vectors"], "with_a_veto": s["nontrivial"], "mismatches": s["mismatches"]}
+    acc.samples += [{"script": x} for x in (s.get("samples") or [])[:1]]
+    for r in recs:
+        if r.get("kind") == "mismatch":
+            v.fail("score-replay", {"why": r["why"], "spec": r["spec"]})
